@@ -580,7 +580,9 @@ func (b *caseBuilder) buildNode(s *Skel) *Node {
 	if b.a.WithPost {
 		b.postCfg(n, unit)
 	} else if b.a.MutPost && n.Kind != KPtr && n.Kind != KStruct {
-		switch b.pick(unit, "post", 5) {
+		switch b.pick(unit, "post", 6) {
+		case 5:
+			n.NPosts, n.PostErr, n.PostMut2 = 2, -1, true // the first returns a *ZogIssue, the second (which must not run) would change the value
 		case 1:
 			n.NPosts, n.PostMut = 1, true
 		case 2:
